@@ -13,6 +13,7 @@ import inspect
 import json
 from typing import Any, Dict, List, Optional
 
+import pydantic
 from pydantic import BaseModel, TypeAdapter
 
 from sim.gen_worker import gen_worker_script
@@ -41,6 +42,12 @@ class Pt(BaseModel):
     y: str = "d"
 
 
+# a different model whose str() equals str(Pt) (same module and qualified name), as two same-named classes of two modules' Enums
+# or factory-made models have: an annotation cache keyed by the printed name would confuse them
+PtB = pydantic.create_model("Pt", z=(int, ...), w=(str, "w"), __module__=Pt.__module__)
+PtB.__qualname__ = Pt.__qualname__
+
+
 @dataclasses.dataclass
 class DC:
     a: int
@@ -49,10 +56,10 @@ class DC:
 
 ANNOTS = {
     "none": None, "Any": "Any", "int": "int", "float": "float", "str": "str", "bool": "bool", "List[int]": "List[int]",
-    "Dict[str, int]": "Dict[str, int]", "Optional[int]": "Optional[int]", "Pt": "Pt", "DC": "DC",
+    "Dict[str, int]": "Dict[str, int]", "Optional[int]": "Optional[int]", "Pt": "Pt", "DC": "DC", "PtB": "PtB",
 }
 TYPES = {"Any": Any, "int": int, "float": float, "str": str, "bool": bool, "List[int]": List[int], "Dict[str, int]": Dict[str, int],
-         "Optional[int]": Optional[int], "Pt": Pt, "DC": DC}
+         "Optional[int]": Optional[int], "Pt": Pt, "DC": DC, "PtB": PtB}
 VALUES = {
     "int": [5, "11", "abc", 3.0, 3.5, None, True, [1], "-7", 0],
     "float": [1.5, "2.5", "x", 3, None, "1e3"],
@@ -63,11 +70,14 @@ VALUES = {
     "Optional[int]": [None, "4", 4, "q"],
     "Pt": [["Pt", {"x": 1, "y": "k"}], {"x": "3"}, {"y": 1}, 5, None, {"x": 2, "y": "w", "extra": 1}],
     "DC": [["DC", {"a": 1, "b": "k"}], {"a": "3"}, {"b": "only"}, 5, None],
+    "PtB": [{"z": "4"}, {"z": 1, "w": "q"}, {"x": 1}, None, 7],
     "free": [1, "x", 2.5, None, True, [1, "a", None], {"k": [1, 2]}, "11", {"x": 1}, ["Pt", {"x": 9, "y": "m"}], ["DC", {"a": 4, "b": "n"}], []],
 }
 
 
 def enc(v: Any) -> Any:
+    if isinstance(v, PtB):
+        return ["<PtB>", v.model_dump()]
     if isinstance(v, BaseModel):
         return ["<Pt>", v.model_dump()]
     if dataclasses.is_dataclass(v) and not isinstance(v, type):
@@ -111,7 +121,7 @@ def dep0() -> int:
     return 77
 
 
-SOURCE_NS.update({"Any": Any, "List": List, "Dict": Dict, "Optional": Optional, "Pt": Pt, "DC": DC, "Context": Context,
+SOURCE_NS.update({"Any": Any, "List": List, "Dict": Dict, "Optional": Optional, "Pt": Pt, "DC": DC, "PtB": PtB, "Context": Context,
                   "TaskiqDepends": TaskiqDepends, "c08_record": c08_record, "c08_finish": c08_finish, "dep0": dep0})
 
 KNOBS = {
@@ -147,7 +157,7 @@ def gen_signature(r: Any, idx: int) -> dict:
 
 
 DEFAULTS = {"none": "'dflt'", "Any": "None", "int": "-1", "float": "-1.5", "str": "'dflt'", "bool": "False", "List[int]": "None",
-            "Dict[str, int]": "None", "Optional[int]": "None", "Pt": "None", "DC": "None"}
+            "Dict[str, int]": "None", "Optional[int]": "None", "Pt": "None", "DC": "None", "PtB": "None"}
 
 
 def source_for(name: str, sig: dict) -> str:
